@@ -25,6 +25,14 @@ stream() {
     rc="$(echo "$o" | grep -a 'mutant verdict' | sed 's/.*exit //')"
     cl="$(echo "$o" | grep -a '^violation:' | head -1 | cut -c1-160)"
     echo "$id $by ${rc:-?} $cl" >> "$TMP/res.$k"
+    # harvest: the minimised scenario that exposed the change becomes a regression seed
+    # (VERIF_HARVEST=<dir>): it holds on the unchanged tree and is run first by every check
+    if [ -n "${VERIF_HARVEST:-}" ] && [ "${rc:-}" = 1 ]; then
+      f="$(ls /work/rr$k/out/replays/$by-*.json 2>/dev/null | grep -v -e sequence -e '\.found\.' | head -1)"
+      if [ -n "$f" ] && ! grep -q '"abort": *true' "$f" && ! grep -q '"sequence": *{' "$f"; then
+        mkdir -p "$VERIF_HARVEST/$by"; cp "$f" "$VERIF_HARVEST/$by/seeded_$id.json"
+      fi
+    fi
   done < "$TMP/jobs"
   VERIF_SCRATCH=/work/rr$k "$V/bin/mutant" --clean >/dev/null 2>&1
 }
